@@ -508,6 +508,9 @@ where
 
     let inner_segments = routes.generate_routes_for_each_locale();
 
+    #[cfg(feature = "verif_hooks")]
+    verif_hooks::record_route_tables(&inner_segments);
+
     let mut guard = segments.0.lock().unwrap();
 
     *guard = inner_segments;
@@ -808,6 +811,25 @@ where
 #[doc(hidden)]
 pub mod verif_hooks {
     use super::*;
+
+    thread_local! {
+        static LAST_ROUTE_TABLES: std::cell::RefCell<Vec<(String, Vec<Vec<PathSegment>>)>> = const { std::cell::RefCell::new(Vec::new()) };
+    }
+
+    /// called by `i18n_routing` with the per-locale tables it keeps for `get_new_path`
+    pub(super) fn record_route_tables<L: Locale>(tables: &HashMap<L, Vec<Vec<PathSegment>>>) {
+        let mut v: Vec<(String, Vec<Vec<PathSegment>>)> = tables
+            .iter()
+            .map(|(l, t)| (l.as_str().to_string(), t.clone()))
+            .collect();
+        v.sort_by(|a, b| a.0.cmp(&b.0));
+        LAST_ROUTE_TABLES.with_borrow_mut(|t| *t = v);
+    }
+
+    /// the per-locale route tables of the `I18nRoute` built last on this thread (locale name, routes)
+    pub fn last_route_tables() -> Vec<(String, Vec<Vec<PathSegment>>)> {
+        LAST_ROUTE_TABLES.with_borrow(|t| t.clone())
+    }
 
     /// see `get_locale_from_path`
     pub fn get_locale_from_path<L: Locale>(path: &str, base_path: &str) -> Option<L> {
